@@ -88,6 +88,19 @@ func oracle(c *Case) (facts, error) {
 					return pe
 				}
 				defer st.Close()
+				if len(args) > 0 {
+					// a prepared statement is reusable: run it once with decoy
+					// arguments first; the result that counts is the second one
+					decoy := make([]any, len(args))
+					for i := range args {
+						decoy[i] = fmt.Sprint(args[i]) + "\x01decoy"
+					}
+					if dr, de := st.Query(decoy...); de == nil {
+						for dr.Next() {
+						}
+						dr.Close()
+					}
+				}
 				r, e = st.Query(args...)
 			} else {
 				r, e = db.Query(text, args...)
